@@ -54,8 +54,6 @@ func expected(res *prog.Result, rb *prog.ReadBack, mask bool) (qs []pdf.Referenc
 		switch {
 		case w == nil:
 			obs[ref] = "null"
-		case w.Unreadable:
-			return
 		case w.IsStream && rb.OpenErr != nil:
 			// decoding filter chains is go-pdf's business (the oracle comes from its reader),
 			// and the reader refused this file (F18)
@@ -136,12 +134,13 @@ func main() {
 		switch r := e.Rand.IntN(40); {
 		case r < 2 && i%5 == 0:
 			plan.Sparse = true
+			plan.SparseHigh = e.Rand.IntN(3) == 0
 		case r < 4:
 			plan.ZeroCompressed = true
 		}
 		if i < 4 {
 			cfg = prog.Config{VIdx: 5 + i%4, Seek: i%2 == 0}
-			plan = prog.Plan{Sparse: true, MaxOps: 1 + i%2}
+			plan = prog.Plan{Sparse: true, SparseHigh: i < 2, MaxOps: 1 + i%2}
 		}
 		res := prog.Run(e.Rand, cfg, plan)
 		if res.ErrIdx != -1 || res.File == nil {
